@@ -137,6 +137,42 @@ fn roundtrip_rational(r: &Rational) -> Result<(), (String, String)> {
     Ok(())
 }
 
+/// A fraction as another writer may have stored it — not in lowest terms, or with the sign in the denominator
+/// (`4/2`, `-10/5`, `3/-6`): it decodes to its value, and writing it out and reading it back keeps that value.
+fn roundtrip_stored_unreduced(n: &BigInt, d: &BigInt) -> Result<(), (String, String)> {
+    use num::Zero;
+    if d.is_zero() {
+        return Ok(());
+    }
+    let want = num::BigRational::new(n.clone(), d.clone());
+    for k in [2i64, 3, 10, -1, -6] {
+        let pair = (n * BigInt::from(k), d * BigInt::from(k));
+        // CBOR
+        let bytes = serde_cbor::to_vec(&pair).map_err(|e| ("pair-does-not-encode".to_string(), e.to_string()))?;
+        let raw: Rational = serde_cbor::from_slice(&bytes).map_err(|e| ("stored-unreduced-rational-does-not-decode".to_string(), format!("{}/{}: {}", pair.0, pair.1, e)))?;
+        if to_big(&raw) != want {
+            return Err(("stored-unreduced-rational-decodes-to-another-value".into(), format!("{}/{} read as {}/{}", pair.0, pair.1, raw.numer(), raw.denom())));
+        }
+        let again = serde_cbor::to_vec(&raw).map_err(|e| ("rational-does-not-encode".to_string(), e.to_string()))?;
+        let back: Rational = serde_cbor::from_slice(&again).map_err(|e| ("rational-cbor-does-not-decode".to_string(), e.to_string()))?;
+        if to_big(&back) != want {
+            return Err(("stored-unreduced-rational-changes-when-written-again".into(), format!("{}/{} (= {}) written again and read back is {}/{}", pair.0, pair.1, want, back.numer(), back.denom())));
+        }
+        // JSON
+        let text = serde_json::to_string(&pair).map_err(|e| ("pair-does-not-encode".to_string(), e.to_string()))?;
+        let raw: Rational = serde_json::from_str(&text).map_err(|e| ("stored-unreduced-rational-does-not-decode".to_string(), format!("{}: {}", text, e)))?;
+        if to_big(&raw) != want {
+            return Err(("stored-unreduced-rational-decodes-to-another-value".into(), format!("{} read as {}/{}", text, raw.numer(), raw.denom())));
+        }
+        let again = serde_json::to_string(&raw).map_err(|e| ("rational-json-does-not-encode".to_string(), e.to_string()))?;
+        let back: Rational = serde_json::from_str(&again).map_err(|e| ("rational-json-does-not-decode".to_string(), format!("{}: {}", again, e)))?;
+        if to_big(&back) != want {
+            return Err(("stored-unreduced-rational-changes-when-written-again".into(), format!("{} (= {}) written again as {} and read back is {}/{}", text, want, again, back.numer(), back.denom())));
+        }
+    }
+    Ok(())
+}
+
 fn same_constant(a: &Constant, b: &Constant) -> bool {
     a.source == b.source && a.tokens == b.tokens && a.description == b.description && a.value == b.value && a.unit == b.unit
 }
@@ -193,8 +229,9 @@ fn check(c: &Case) -> CaseReport {
             Case::Rational { numer, denom } => {
                 let n: BigInt = numer.parse().unwrap();
                 let d: BigInt = denom.parse().unwrap();
-                let r = Rational::new(n.clone(), d);
+                let r = Rational::new(n.clone(), d.clone());
                 roundtrip_rational(&r)?;
+                roundtrip_stored_unreduced(&n, &d)?;
                 Ok((n.bits() > 64, vec!["rational"]))
             }
             Case::Constant { tokens, description, numer, denom, entries, source } => {
@@ -387,7 +424,7 @@ fn rational_case() -> impl Strategy<Value = Case> {
 }
 
 pub fn run_check(ctx: &Ctx) {
-    ctx.set_rule("unit expressions with powers at the boundaries of every integer width (2^7 .. 2^31, both signs) written and read back (==, Display); exhaustive: all 86 registry units (name -> Compound -> CBOR -> back; the id written by the code equals the id documented in tools/gen/data.toml; a CBOR value hand-built from the documented id decodes to the same unit; ids pairwise distinct; every identifier pinned in harness/data/ids_pinned.json — what data written by the pinned build contains — still decodes, to a unit with the same singular/plural name, equal to the unit its documented name parses to) every shipped source record (reachable by its id in a started database with the id, description and URL the file holds; CBOR round trip) and every shipped constant (decode, re-encode, decode, equal, byte-identical, unit ids inside the registry; and, looked up by its own words, the constant stored in the index equals the one in the file field by field, tokens included); every accepted vocabulary word (parse -> CBOR -> back); generated: compounds of 1-6 units with every SI prefix (plus the gram's bias) and powers -9..9 built from documented ids, the same compounds written by hand in another map-key order (must decode to an equal compound with identical display and canonical re-encoding), rationals up to 2000 bits through CBOR and JSON, constants; non-trivial = derived unit / compound with >=2 units incl. a derived one / rational with >64-bit numerator / constant; distinct by case");
+    ctx.set_rule("unit expressions with powers at the boundaries of every integer width (2^7 .. 2^31, both signs) written and read back (==, Display); exhaustive: all 86 registry units (name -> Compound -> CBOR -> back; the id written by the code equals the id documented in tools/gen/data.toml; a CBOR value hand-built from the documented id decodes to the same unit; ids pairwise distinct; every identifier pinned in harness/data/ids_pinned.json — what data written by the pinned build contains — still decodes, to a unit with the same singular/plural name, equal to the unit its documented name parses to) every shipped source record (reachable by its id in a started database with the id, description and URL the file holds; CBOR round trip) and every shipped constant (decode, re-encode, decode, equal, byte-identical, unit ids inside the registry; and, looked up by its own words, the constant stored in the index equals the one in the file field by field, tokens included); every accepted vocabulary word (parse -> CBOR -> back); generated: compounds of 1-6 units with every SI prefix (plus the gram's bias) and powers -9..9 built from documented ids, the same compounds written by hand in another map-key order (must decode to an equal compound with identical display and canonical re-encoding), rationals up to 2000 bits through CBOR and JSON (also as another writer may have stored them: not in lowest terms, sign in the denominator — decoded, written again, read back: the same value), constants; non-trivial = derived unit / compound with >=2 units incl. a derived one / rational with >64-bit numerator / constant; distinct by case");
     if std::env::var("VERIF_EMIT_PINS").is_ok() {
         emit_pins();
         std::process::exit(0);
